@@ -266,12 +266,38 @@ def rawtext_rules(ctx):
             "with escape_rcdata=True the text of raw-text elements is escaped although the parser reads it raw: "
             "'<script>a<b</script>' is written as '<script>a&lt;b</script>' and read back as the text 'a&lt;b', no error reported",
             detail={"option_tests": opt})
-    # (b) the decision must consult the namespace
-    ns_used = any("namespace" in norm(n.ast) for n in cfg.stmt_nodes() if n.ast is not None and n.kind in ("test", "stmt")
-                  and not isinstance(n.ast, ast.For))
-    r.check("S2", ns_used, "raw-decision-namespace", "%s:%d" % (REL, uses[0].lineno),
-            "the raw-text decision tests the bare element name: text of <svg><style> / <math><script> is written raw although "
-            "the parser tokenizes foreign content as ordinary data", detail={"namespace_consulted": ns_used})
+    # (b) the decision as a function of the element's namespace: raw for HTML elements -- namespace html, None (trees built with
+    #     namespaceHTMLElements=False) or absent (hand-made streams) -- and not for foreign elements
+    from ..partition import MiniInterp, Opaque
+    sw = [n for n in ast.walk(f.node) if isinstance(n, ast.If) and any(norm(s) == "in_cdata = True" for s in n.body)]
+    ns_map = ce.const("constants.py", "namespaces")
+    if len(sw) != 1:
+        r.idiom("S2", False, "raw-decision-namespace", "%s:%d" % (REL, uses[0].lineno), "the statement that switches raw-text mode on was not found")
+    else:
+        def hook(node, local):
+            if norm(node) == "self.escape_rcdata":
+                return False
+            return NotImplemented
+        interp = MiniInterp(ce, f.module, expr_hook=hook)
+        for label, nsv in (("svg", ns_map["svg"]), ("html", ns_map["html"]), ("None", None), ("absent", "<absent>")):
+            tok = {"type": "StartTag", "name": "script", "data": {}}
+            if nsv != "<absent>":
+                tok["namespace"] = nsv
+            try:
+                raw = bool(interp.eval_guard(sw[0].test, {"token": tok, "name": "script", "type": "StartTag", "in_cdata": False, "self": Opaque("self")}))
+            except AnalysisError as e:
+                r.idiom("S2", False, "raw-decision-namespace[%s]" % label, "%s:%d" % (REL, sw[0].lineno), "raw-text switch not decidable (%s)" % str(e)[:60])
+                continue
+            if label == "svg":
+                r.check("S2", not raw, "raw-decision-namespace", "%s:%d" % (REL, uses[0].lineno),
+                        "the raw-text decision tests the bare element name: text of <svg><style> / <math><script> is written raw although "
+                        "the parser tokenizes foreign content as ordinary data", detail={"namespace": label, "raw": raw})
+            else:
+                r.check("S2", raw, "raw-decision-namespace[%s]" % label, "%s:%d" % (REL, sw[0].lineno),
+                        "the text of an HTML <script> whose token carries namespace %s (%s) is escaped instead of written raw: the parser "
+                        "reads it back literally ('a < b' becomes 'a &lt; b'), no error reported" % (
+                            label, "a tree built with namespaceHTMLElements=False" if label == "None" else "a token without a namespace key"
+                            if label == "absent" else "the usual case"), detail={"namespace": label, "raw": raw})
 
 
 def attr_key_rule(ctx):
